@@ -23,6 +23,8 @@ META = {
 META["explanation"] += ' R04.1 counts acquisitions made in private helpers of the wrapper as its own (virtual inlining); R01.1 (every mutable borrow of the value reaches the version bump in the same function) is evaluated here too: a value written in one critical section and the version bumped in another is visible with the old version.'
 META["explanation"] += ' R04.5 no acquisition of the state lock while a kept guard of it is alive (writer-fair RwLocks: a recursive read lock deadlocks with a queued writer); metadata-lock acquisitions are nested by design and not counted; for the async flavour creating a lock future is not an acquisition, polling / awaiting it is.'
 META["explanation"] += ' Shared with C01: R01.13 and R01.14 (a conditional setter deciding on a stale derivation of the value returns a result no sequential order explains).'
+META["explanation"] += ' R04.5 also sees acquisitions made inside closures handed to combinators (`poll.map(|r| r.map(|_| self.read()))`) while a guard is alive in the enclosing body.'
+META["explanation"] += ' Also evaluated: the unsafe inventory R20.1 and R20.5 marker-impl-bound (an `unsafe impl Sync` for the state would let two read guards race).'
 
 ACQ = r"^(std::sync::RwLock|tokio::sync::RwLock)::<.*>::(write|read|try_write|try_read|blocking_write|blocking_read|write_owned|read_owned)$"
 EXCL = r"::(write|try_write|blocking_write|write_owned)$"
@@ -49,6 +51,11 @@ def run(ctx):
         c01.r01_13(ctx, nset)
         c01.r01_14(ctx)   # a conditional setter deciding on a stale cache returns a result no sequential order explains
     groups.eyeball_close_and_wake(ctx)
+    # the sequential order is an argument about safe Rust: every hand-written `unsafe impl Send / Sync` of the crate is in the audited
+    # inventory and its bounds cover what it stores (an `unsafe impl Sync` for the state would let two read guards race on a Cell)
+    from . import c20, autotrait
+    c20.r20_1(ctx)
+    autotrait.check_unsafe_marker_impls(ctx, "R20.5")
 
 
 GUARD_TY = r"(SharedReadGuard|OwnedSharedReadGuard|RwLockReadGuard|RwLockWriteGuard|OwnedRwLockReadGuard|OwnedRwLockWriteGuard|ObservableReadGuard|ObservableWriteGuard)<"
